@@ -325,7 +325,7 @@ def run(ctx):
                 nontrivial.add(s)
                 qs = by_s.get(s)
                 cls = case_class(s)
-                tag = (":case:" + ",".join(cls)) if cls else ""
+                tag = ":case-mapping" if cls else ""
                 if not qs:
                     vio.append({"sig": "C13:nonzero-not-generated" + tag,
                                 "what": "score %r for %r, which the guesser never emits under this ruleset%s" %
@@ -412,7 +412,7 @@ def replay(ctx, data):
         if p != 0:
             qs = by_s.get(s)
             cls = case_class(s)
-            tag = (":case:" + ",".join(cls)) if cls else ""
+            tag = ":case-mapping" if cls else ""
             if not qs:
                 out.append({"sig": "C13:nonzero-not-generated" + tag, "what": "score %r for %r, never emitted by the guesser" % (p, s),
                             "replay": inp})
